@@ -104,9 +104,9 @@ def sameFields (fs : List Fld) (vs : List EV) (gs : List Fld) (ws : List EV) : B
 termination_by structural vs
 end
 
-/-- same kind: `Kind()` reads the same (the kind word, case-folded or not) -/
+/-- same kind: AND / OR / NOT / LIST / BASIC. Options (case folding among them) are not part of the description. -/
 def sameKind (c c' : Cfg) : Bool :=
-  c.kind == c'.kind && Gen.cfgFlag_positive c.opt Gen.flag_cfold == Gen.cfgFlag_positive c'.opt Gen.flag_cfold
+  c.kind == c'.kind
 
 /-- same operator: both absent, or same text and same context -/
 def sameOp (o o' : Op) : Bool :=
